@@ -4,6 +4,7 @@ The pattern is `Generated.headerRegex`, translated on every run from the pattern
 `CheckHeader.check_header` compiles; `re.search` itself is a parameter `srch` constrained by
 assumption A2 (it finds a match whenever the declarative semantics `Searches` has one).
 -/
+import NormModel.Model.Checks
 import NormModel.Model.Header
 import NormModel.Proofs.Regex
 import NormModel.Generated.HeaderRegex
@@ -253,6 +254,86 @@ theorem reject_no_header (srch : List Char → Bool) (e : HEvent) (es : List HEv
     · simp [h]
     · cases hc : e.isComment <;> simp [hc, h]
   rw [absorbing es _ this.1]; exact this.2
+
+
+/-! ### File level, for every rule table
+
+`CheckHeader` is in the `_rule` list: it runs after every matched primary. What it reads of a
+statement is whether the primary was `IsComment` and the statement's first token, so its
+behaviour over a whole file is the state machine run over the statements of the engine's trace
+(`headerRunFile`), whatever the rules are. -/
+
+/-- **At most one INVALID_HEADER per file**, for every token list, every trace (every rule
+table) and every search function. -/
+theorem at_most_once_file (srch : List Char → Bool) (toks : List Token) (trace : List Segment) :
+    (headerRunFile srch toks trace).errors ≤ 1 := at_most_once srch _
+
+/-- **Exactly one when the file does not begin with a header comment**: the first statement was
+not matched by `IsComment`, or its first token is not a block comment (code, an empty line, a
+`//` comment, an indented comment). -/
+theorem reject_file (srch : List Char → Bool) (toks : List Token) (g : Segment) (rest : List Segment)
+    (h : g.rule ≠ "IsComment" ∨ ∀ t, toks[g.start]? = some t → t.type ≠ "MULT_COMMENT") :
+    (headerRunFile srch toks (g :: rest)).errors = 1 := by
+  unfold headerRunFile
+  rw [List.map_cons]
+  apply reject_no_header
+  unfold headerEventOf
+  rcases h with h | h
+  · left; simp [h]
+  · right
+    cases ht : toks[g.start]? with
+    | none => rfl
+    | some t =>
+      have := h t ht
+      simp [this]
+
+/-- **None when the file begins with a well-formed header**: the first eleven statements are
+`IsComment` statements whose first tokens are the header's lines, possibly followed by more
+own-line block comments, and the next statement (if any) is not a comment. -/
+theorem accept_file (srch : List Char → Bool) (hA2 : ∀ s, Searches Generated.headerRegex s → srch s = true)
+    (h : Header) (hw : h.WF) (toks : List Token) (hsegs rest : List Segment) (more : List (List Char))
+    (hev : hsegs.map (headerEventOf toks) = h.events ++ more.map (fun l => ⟨true, some l⟩))
+    (hrest : ∀ g, rest.head? = some g → g.rule ≠ "IsComment") :
+    (headerRunFile srch toks (hsegs ++ rest)).errors = 0 := by
+  unfold headerRunFile
+  rw [List.map_append, hev]
+  apply accept srch hA2 h hw more
+  intro e he
+  cases rest with
+  | nil => simp at he
+  | cons g gs =>
+    simp only [List.map_cons, List.head?_cons, Option.some.injEq] at he
+    subst he
+    have := hrest g rfl
+    simp [headerEventOf, this]
+
+/-- the diagnostics are as many as the state machine counts, when every statement starts at a
+token of the file -/
+theorem headerDiags_length (srch : List Char → Bool) (toks : List Token) (trace : List Segment) (st : HState)
+    (hin : ∀ g ∈ trace, g.start < toks.length) :
+    (headerDiagsAux srch toks trace st).length + st.errors =
+      ((trace.map (headerEventOf toks)).foldl (headerStep srch) st).errors := by
+  induction trace generalizing st with
+  | nil => simp [headerDiagsAux]
+  | cons g gs ih =>
+    have hg := hin g (by simp)
+    have hrest := ih (headerStep srch st (headerEventOf toks g)) (fun g' hg' => hin g' (List.mem_cons_of_mem _ hg'))
+    simp only [headerDiagsAux, List.map_cons, List.foldl_cons, List.length_append]
+    rw [← hrest]
+    have hmono : st.errors ≤ (headerStep srch st (headerEventOf toks g)).errors ∧
+        (headerStep srch st (headerEventOf toks g)).errors ≤ st.errors + 1 := by
+      unfold headerStep
+      split
+      · simp
+      · split
+        · split <;> simp
+        · split
+          · simp only; split <;> simp
+          · simp
+    have hget : toks[g.start]? = some toks[g.start] := List.getElem?_eq_getElem hg
+    split
+    · rw [hget]; simp; omega
+    · simp; omega
 
 /-- Non-vacuity: the header of tests/rules/samples/test_file_1012.c is well formed. -/
 def exHeader : Header where
